@@ -4,6 +4,7 @@ import RichModel.Model.Table
 import RichModel.Gen.CellWidths
 import RichModel.Gen.TableBoxes
 import RichModel.Model.Frames
+import RichModel.Model.TableRows
 /-
 Driver handlers for property C07 (tables): the width arithmetic (Drv/Ratio) and the table model.
 
@@ -202,7 +203,62 @@ def encPad : Option (Int × Int × Int × Int) → String
   | none => "-"
   | some (a, b, c, d) => s!"{a} {b} {c} {d}"
 
+/-! ### `add_row` / styles (`Model/TableRows.lean`) -/
+
+open TableRows in
+/-- a call = `<end_section 0|1>:<args>`; an argument: `0` = None, `-1` = not renderable, `k > 0` = renderable number `k` -/
+def decCall (s : String) : List (Arg Int) × RowMeta :=
+  match s.splitOn ":" with
+  | [es, args] =>
+    ((if args.isEmpty then [] else (args.splitOn " ").map (fun a =>
+        let v := decInt a
+        if v == 0 then Arg.none else if v < 0 then Arg.bad else Arg.ok v)), { endSection := decBool es })
+  | _ => ([], {})
+
+open TableRows in
+def encBuilder (r : Builder Int × Bool) : String :=
+  (if r.2 then "ok" else "err:NotRenderableError") ++ "#" ++ toString r.1.cols.length ++ "#" ++
+    "/".intercalate (r.1.cols.map (fun c => " ".intercalate (c.map toString))) ++ "#" ++
+    " ".intercalate (r.1.rows.map (fun m => if m.endSection then "1" else "0"))
+
+open TableRows in
+mutual
+def encSrc : Src → String
+  | .table => "T" | .border => "B" | .rowStyles i => s!"RS{i}" | .row s => s!"R{s}"
+  | .tableHeader => "TH" | .tableFooter => "TF" | .colHeader j => s!"CH{j}" | .colFooter j => s!"CF{j}" | .colStyle j => s!"CS{j}"
+  | .own i => s!"O{i}" | .bgOf l => "BG(" ++ encSrcs l ++ ")"
+def encSrcs : List Src → String
+  | [] => ""
+  | x :: r => encSrc x ++ "." ++ encSrcs r
+end
+
+open TableRows in
+def encStyle (l : List Src) : String := "+".intercalate (l.map encSrc)
+
 def handlers : List (String × (List String → String)) := Drv.Ratio.handlers ++ [
+  -- `Table.add_row` calls on a table with n0 declared columns: blank `""` = 0, back-fill `Text("")` = -2
+  ("table.add_rows", fun a => match a with
+    | [n0, calls] =>
+      let b0 : TableRows.Builder Int := { cols := List.replicate (decNat n0) [], rows := [] }
+      let cs := if calls.isEmpty then [] else (calls.splitOn ";").map decCall
+      encBuilder (b0.addRows 0 (-2) cs)
+    | _ => "bad-args"),
+  -- the styles `_render` composes: show_header show_footer len(row_styles) rows' style ids (-1 = None) n(zipped rows) ms(entries per column) divider-is-space
+  ("table.styles", fun a => match a with
+    | [sh, sf, k, rst, n, ms, sp] =>
+      let rows : List TableRows.RowMeta := (if rst.isEmpty then [] else (rst.splitOn " ").map (fun x =>
+        let v := decInt x
+        ({ style := if v < 0 then none else some v.toNat } : TableRows.RowMeta)))
+      let sh := decBool sh
+      let sf := decBool sf
+      let k := decNat k
+      let n := decNat n
+      let ms := if ms.isEmpty then [] else (ms.splitOn " ").map decNat
+      ";".intercalate ((List.range n).map (fun index =>
+        encStyle (TableRows.fillStyle sh sf k rows n index) ++ "|" ++ encStyle (TableRows.dividerStyle (decBool sp) sh sf k rows n index) ++ "|" ++
+          ",".intercalate (ms.zipIdx.map (fun mj => encStyle (TableRows.cellStyle sh sf k rows n index mj.2 mj.1)))))
+        ++ "|" ++ encStyle TableRows.borderStyle
+    | _ => "bad-args"),
   ("table.bundle", fun a => match a with
     | pool :: variants =>
       let p := decPool pool
